@@ -834,25 +834,36 @@ func filterAttributesByWhitelist(allAttrs []string, ad *classad.ClassAd, whiteli
 }
 
 // adWithoutPrivate returns the ad to evaluate MyType/TargetType in: ad itself when
-// none of its attributes is private (the common case -- no copy), else a copy with
-// every private attribute (V1, V2 and the caller's EncryptedAttrs) removed. The copy
-// shares the attribute values and keeps the evaluation scopes of the original.
+// none of its attributes is private and it has no evaluation scopes (the common
+// case -- no copy), else a copy with every private attribute (V1, V2 and the
+// caller's EncryptedAttrs) removed. The copy shares the attribute values. Its
+// PARENT and TARGET scopes are redacted views of the original's scopes: a type
+// expression may still refer to a public attribute of the enclosing or matched ad
+// (MyType = TARGET.Kind), but cannot carry one of THEIR private values
+// (MyType = TARGET.ClaimId) into the cleartext trailer either.
 func adWithoutPrivate(ad *classad.ClassAd, attrs []string, encryptedAttrs []string) *classad.ClassAd {
+	needView := ad.GetParent() != nil || ad.GetTarget() != nil
 	for _, attr := range attrs {
-		if !ClassAdAttributeIsPrivateAny(attr) && !isAttrInList(attr, encryptedAttrs) {
-			continue
+		if ClassAdAttributeIsPrivateAny(attr) || isAttrInList(attr, encryptedAttrs) {
+			needView = true
+			break
 		}
-		view := ad.Redacted()
-		for _, a := range attrs {
-			if isAttrInList(a, encryptedAttrs) {
-				view.Delete(a)
-			}
-		}
-		view.SetParent(ad.GetParent())
-		view.SetTarget(ad.GetTarget())
-		return view
 	}
-	return ad
+	if !needView {
+		return ad
+	}
+	view := ad.Redacted()
+	if view == ad {
+		return ad // (Redacted hands back an ad without attributes as it is: nothing to evaluate)
+	}
+	for _, a := range attrs {
+		if isAttrInList(a, encryptedAttrs) {
+			view.Delete(a)
+		}
+	}
+	view.SetParent(ad.GetParent().Redacted())
+	view.SetTarget(ad.GetTarget().Redacted())
+	return view
 }
 
 // isAttrInList checks if an attribute is in the given list
